@@ -161,3 +161,66 @@ func oracleC17NodeEmission(start int, nTags int, step int, member bool, loneLoca
 	}
 	vAssert(count[1] == want1 && count[2] == 0 && count[3] == want3)
 }
+
+// C17: "a line ... with the way's resolvable node coordinates" for every way;
+// the one exception the converter makes is a member way of a route relation
+// that has no interesting tag of its own (its line is part of the route).
+// Whether the route carries the same tags as the way makes no difference.
+//
+//@ func oracleC17RouteWays
+//@   props C17
+//@   oracle
+//@   covers buildRouteLineString
+//@   covers osmgeojson.Convert
+func oracleC17RouteWays(start int, nTags int, step int, sameTags bool, member bool) {
+	keys := []string{"source", "created_by", "note", "name", "highway", "ref", "fixme", "odbl"}
+	var tags osm.Tags
+	interesting := false
+	st := 2*(c17Abs(step)%4) + 1
+	for i := 0; i < c17Abs(nTags)%5; i++ {
+		k := keys[(c17Abs(start)%8+i*st)%len(keys)]
+		tags = append(tags, osm.Tag{Key: k, Value: "v"})
+		if !osm.UninterestingTags[k] {
+			interesting = true
+		}
+	}
+	rtags := osm.Tags{{Key: "type", Value: "route"}}
+	if sameTags {
+		rtags = append(rtags, tags...)
+	}
+	rel := &osm.Relation{ID: 100, Version: 1, Tags: rtags, Members: osm.Members{{Type: osm.TypeWay, Ref: 11, Role: ""}}}
+	if member {
+		rel.Members = append(rel.Members, osm.Member{Type: osm.TypeWay, Ref: 10})
+	}
+	o := &osm.OSM{
+		Nodes: osm.Nodes{
+			{ID: 1, Lat: 1, Lon: 1, Version: 1}, {ID: 2, Lat: 2, Lon: 2, Version: 1}, {ID: 3, Lat: 3, Lon: 3, Version: 1},
+		},
+		Ways: osm.Ways{
+			{ID: 10, Version: 1, Nodes: osm.WayNodes{{ID: 1}, {ID: 2}}, Tags: tags},
+			{ID: 11, Version: 1, Nodes: osm.WayNodes{{ID: 2}, {ID: 3}}, Tags: osm.Tags{{Key: "highway", Value: "path"}}},
+		},
+		Relations: osm.Relations{rel},
+	}
+	fc, err := Convert(o)
+	vAssert(err == nil && fc != nil)
+	if fc == nil {
+		return
+	}
+	ways := map[int]int{}
+	rels := 0
+	for _, f := range fc.Features {
+		switch f.Properties["type"] {
+		case "way":
+			id, _ := f.Properties["id"].(int)
+			ways[id]++
+		case "relation":
+			rels++
+		}
+	}
+	want10 := 1
+	if member && !interesting {
+		want10 = 0
+	}
+	vAssert(rels == 1 && ways[11] == 1 && ways[10] == want10)
+}
